@@ -5,7 +5,7 @@ import z3
 from pyvc import ty as T
 from pyvc import heap as H
 from pyvc.engine import Fact, Step
-from pyvc.registry import ANY, CLASSES, Contract, Loop, declare_ref, lemma, scan, assumption, observation
+from pyvc.registry import ANY, CLASSES, Contract, Loop, declare_ref, lemma, scan, assumption, observation, body_frame
 from contracts import shapes as S_
 from contracts.c_utils import ETy, OptET, us, t_time, t_unit, mk
 from contracts.c_events import EL, q_list, is_heap, mem, ev_time, ev_type, ev_task, et, lst_mod, EVENT, same_members
@@ -114,6 +114,7 @@ Contract(
     ret=TaskList,
     trusted=True,
     allocates=True,
+    may_raise=("ValueError", "AttributeError"),
     # (TaskGraph.cancel#body: besides the task fields, looking up the parents of a reached child may add an empty entry to
     # the graph's parent map, a defaultdict)
     modifies=lambda c: dict({c.pre.fld_arr(TASK, f)[0]: ANY for f in ("_state", "_cancellation_time", "_probability", "_remaining_time")}, **{c.pre.carr(Adj, p_)[0]: [g_parents(c.pre, c.arg("self"))] for p_ in ("len", "keys", "idx", "dom", "val")}),
@@ -320,9 +321,9 @@ Contract(
     params={"self": S_.WorkerPool.ty, "current_time": ETy, "task": S_.TASKR},
     trusted=True,
     may_raise=("ValueError",),
-    modifies=lambda c: {},
+    modifies=body_frame("workers.workers.WorkerPool.remove_task"),
     ensures=lambda c: z3.BoolVal(True),
-    note="WorkerPool.remove_task as seen from the finish handler (ledger effect is the subject of C04/C01; no Task / Event / queue / counter field is touched)",
+    note="WorkerPool.remove_task as seen from the finish handler: writes what remove_task#body may write (the pool's and its workers' ledgers; the ledger effect itself is the subject of C04/C01), no Task / Event / queue / counter field",
     props=("C08", "C03", "C02", "C06"),
 )
 
@@ -361,7 +362,7 @@ def _notify_ens(c):
         # cancelled tasks carry their cancellation time (Task.cancel's contract)
         z3.ForAll(
             [x],
-            z3.Implies(c.post.l_mem(TaskList, can, x), z3.And(x > 0, x < c.alloc0, c.post.rd(x, TASK, "_cancellation_time")[1] == T.opt_some(OptET, c.arg("finish_time")))),
+            z3.Implies(c.post.l_mem(TaskList, can, x), z3.And(x > 0, task_state(c.post, x) == CANCELLED, c.post.rd(x, TASK, "_cancellation_time")[1] == T.opt_some(OptET, c.arg("finish_time")))),
             patterns=[c.post.l_mem(TaskList, can, x)],
         ),
         z3.ForAll([x], z3.Implies(c.post.l_mem(TaskList, rel, x), z3.And(x > 0, x < c.alloc0)), patterns=[c.post.l_mem(TaskList, rel, x)]),
@@ -374,12 +375,49 @@ Contract(
     ret=TL2,
     trusted=True,
     allocates=True,
-    may_raise=("ValueError", "RuntimeError"),
-    modifies=lambda c: {c.pre.fld_arr(TASK, f)[0]: ANY for f in ("_state", "_cancellation_time", "_probability", "_remaining_time")},
+    may_raise=("ValueError", "RuntimeError", "IndexError", "AttributeError"),
+    modifies=lambda c: dict({c.pre.fld_arr(TASK, f)[0]: ANY for f in ("_state", "_cancellation_time", "_probability", "_remaining_time")}, **{c.pre.carr(Adj, p_)[0]: [g_parents(c.pre, _wntc_graph(c))] for p_ in ("len", "keys", "idx", "dom", "val")}),
     ensures=_notify_ens,
     note="Workload.notify_task_completion: returns (released, cancelled) task lists (which children: decided by the bounded taskgraph stand-in)",
     props=("C08", "C02", "C06"),
 )
+def _wntc_graph(c):
+    return c.pre.d_val(TGMap, c.pre.rd(c.arg("self"), WORKLOAD, "_task_graphs")[1], c.pre.rd(c.arg("task"), TASK, "_task_graph")[1])
+
+
+def _wntc_requires(c):
+    from contracts.c_taskgraph import child_at, n_children
+
+    g, t = _wntc_graph(c), c.arg("task")
+    j = z3.Int(H.fresh_name("wn_j"))
+    known = c.pre.d_dom(TGMap, c.pre.rd(c.arg("self"), WORKLOAD, "_task_graphs")[1], c.pre.rd(t, TASK, "_task_graph")[1])
+    return {
+        # graph representation invariant of the task's graph (as required by TaskGraph.notify_task_completion)
+        "graph_wf": z3.Implies(
+            known,
+            z3.And(
+                g != 0,
+                g_children(c.pre, g) != g_parents(c.pre, g),
+                z3.ForAll([j], z3.Implies(z3.And(0 <= j, j < n_children(c.pre, g, t)), z3.And(child_at(c.pre, g, t, j) != 0, c.pre.d_dom(Adj, g_children(c.pre, g), child_at(c.pre, g, t, j)))), patterns=[child_at(c.pre, g, t, j)]),
+            ),
+        ),
+    }
+
+
+Contract(
+    "workload.workload.Workload.notify_task_completion#body",
+    params={"self": T.Ref(WORKLOAD), "task": S_.TASKR, "finish_time": ETy},
+    ret=TL2,
+    requires=_wntc_requires,
+    may_raise=("ValueError", "RuntimeError", "IndexError", "AttributeError"),
+    raise_unchanged=False,
+    modifies=lambda c: dict({c.pre.fld_arr(TASK, f)[0]: ANY for f in ("_state", "_cancellation_time", "_probability", "_remaining_time")}, **{c.pre.carr(Adj, p_)[0]: [g_parents(c.pre, _wntc_graph(c))] for p_ in ("len", "keys", "idx", "dom", "val")}),
+    ensures=lambda c: {"notify.abstract_contract_holds": _notify_ens(c)},
+    allocates=True,
+    note="the abstract contract the finish handler uses, verified against the body (a lookup of the task's graph + TaskGraph.notify_task_completion, which is verified) under the representation invariant of that graph",
+    props=("C08", "C02", "C06", "C07"),
+)
+
 Contract(
     "workload.workload.Workload.notify_task_graph_completion",
     params={"self": T.Ref(WORKLOAD), "task_graph": TGR, "finish_time": ETy},
@@ -424,6 +462,10 @@ def _hf_mod(c):
         out[c.pre.fld_arr(TASK, f)[0]] = ANY
     for f in ("_finished_tasks", "_finished_task_graphs", "_missed_task_deadlines", "_missed_task_graph_deadlines"):
         out[c.pre.fld_arr(SIM, f)[0]] = [s]
+    # notifying the task's graph may add empty entries to its parent map (a defaultdict)
+    g = c.pre.d_val(TGMap, c.pre.rd(c.pre.rd(s, SIM, "_workload")[1], WORKLOAD, "_task_graphs")[1], c.pre.rd(task, TASK, "_task_graph")[1])
+    for p_ in ("len", "keys", "idx", "dom", "val"):
+        out[c.pre.carr(Adj, p_)[0]] = [g_parents(c.pre, g)]
     return out
 
 
@@ -511,14 +553,14 @@ Contract(
     "simulator.Simulator.__handle_task_finished",
     params={"self": Simulator.ty, "event": S_.Event.ty},
     requires=_hf_requires,
-    may_raise=("ValueError", "RuntimeError", "AttributeError"),
+    may_raise=("ValueError", "RuntimeError", "AttributeError", "IndexError"),
     raise_unchanged=False,
     modifies=_hf_mod,
     loops={0: Loop(inv=_hf_loop_inv("cancel"), modifies=_hf_loop_mod, lemmas=_hf_loop_lemmas), 1: Loop(inv=_hf_loop_inv("release"), modifies=_hf_loop_mod, lemmas=_hf_loop_lemmas)},
     ensures=_hf_ens,
     entry_facts=lambda c: [closed_queue(c)],
     allocates=True,
-    note="may raise ValueError / RuntimeError / AttributeError from the callees (unknown pool, notify on inconsistent graph); those paths are not constrained",
+    note="may raise ValueError / RuntimeError / AttributeError / IndexError from the callees (unknown pool, notify on inconsistent graph, random.choices(...)[0]); those paths are not constrained",
     props=("C08", "C03", "C02", "C06"),
 )
 
@@ -971,6 +1013,11 @@ def _he_mod(c):
     for f in Simulator.fields:
         if f not in ("_logger", "_csv_logger", "_log_dir", "_simulator_time", "_event_queue"):
             out[c.pre.fld_arr(SIM, f)[0]] = [s]
+    # the handlers under contract also write the cache of pending placements and (through defaultdict look-ups) the
+    # parent maps of task graphs
+    for p_ in ("len", "keys", "idx", "dom", "val"):
+        out[c.pre.carr(FutureMap, p_)[0]] = ANY
+        out[c.pre.carr(Adj, p_)[0]] = ANY
     return out
 
 
